@@ -132,7 +132,9 @@ RetryPath ==
 Eval ==
   /\ pc = "eval"
   /\ LET cls0 == Class(Proto, lastO)
-         cls == IF Deviation = "retry400" /\ cls0 = "final" THEN "retryable"
+         cls == IF Deviation = "retry400" /\ cls0 = "final" /\ lastO.kind = "status" THEN "retryable"
+                ELSE IF Deviation = "permRetried" /\ lastO.kind = "permnet" THEN "retryable"
+                ELSE IF Deviation = "tempOnlyTimeout" /\ lastO.kind = "tempnet" THEN "final"
                 ELSE IF Deviation = "exhaustedNoRI" /\ Proto = "grpc" /\ lastO.code = GrpcResourceExhausted THEN "retryable"
                 ELSE cls0
      IN CASE cls = "success" -> Return(FALSE, 0, <<>>)
